@@ -1095,6 +1095,24 @@ theorem MotionTie_hooks (b : B) (hk : Hook) (h : Rat) :
     · have he : b.hooks.erase hk = b.hooks := List.erase_of_not_mem hm
       (simp [hm, he, AgreesM, accept, outOf, absB] <;> first | done | rfl)
 
+/-- **`move_hook()`**: entering the context registers the hook exactly as `add_hook` does, leaving it - normally or through an
+    exception, it is the `finally` block - removes it exactly as `remove_hook` does; so a `with g.move_hook(h):` block is the
+    model's `addHook h`, the body, `removeHook h`. -/
+theorem MotionTie_move_hook (b : B) (hk : Hook) (h : Rat) :
+    AgreesM (step b (.addHook hk)) (GCodeBuilder.move_hook_enter (absB b) hk h) ∧
+    AgreesM (step b (.removeHook hk)) (GCodeBuilder.move_hook_exit (absB b) hk h) := by
+  obtain ⟨h1, h2⟩ := MotionTie_hooks b hk h
+  have e1 : GCodeBuilder.move_hook_enter (absB b) hk h = GCodeBuilder.add_hook (absB b) hk h := by
+    simp only [GCodeBuilder.move_hook_enter]
+    generalize GCodeBuilder.add_hook (absB b) hk h = p
+    obtain ⟨s, _ | e⟩ := p <;> rfl
+  have e2 : GCodeBuilder.move_hook_exit (absB b) hk h = GCodeBuilder.remove_hook (absB b) hk h := by
+    simp only [GCodeBuilder.move_hook_exit]
+    generalize GCodeBuilder.remove_hook (absB b) hk h = p
+    obtain ⟨s, _ | e⟩ := p <;> rfl
+  rw [e1, e2]
+  exact ⟨h1, h2⟩
+
 /-! ## C05 read off the translated source -/
 
 /-- **A translated command that raises has changed nothing**: whenever a translated command agrees with the model's step
